@@ -1,34 +1,16 @@
 import Qats.Model.SN
-import Qats.Lemmas.RealOps
-import Mathlib.Tactic.Ring
-import Mathlib.Tactic.NormNum
-import Mathlib.Tactic.FieldSimp
-import Mathlib.Tactic.Linarith
+import Qats.Lemmas.RealOpsSimp
 /-!
-Bridging lemmas: the generated formulas (`Qats.Gen.sn_*`, `gh_corrected`) at `α := ℝ` in ordinary Mathlib
-notation.  These are the *only* lemmas whose proofs look at the syntactic shape of the generated formulas; every
-other S-N lemma is proved from the right-hand sides stated here.  Each proof is "unfold, normalise literals,
-normalise ring structure", so it survives algebraically harmless refactorings of the source formula.
+Bridging lemmas for C05: the generated S-N curve formulas (`Qats.Gen.sn_loga2 … sn_tcorr_mask`) at `α := ℝ` in
+ordinary Mathlib notation.  These are the *only* lemmas whose proofs look at the syntactic shape of these generated
+formulas; every other S-N lemma is proved from the right-hand sides stated here.  Each proof is "unfold, normalise
+literals, normalise ring structure", so it survives algebraically harmless refactorings of the source formula.
+
+The generic `TranscOps ℝ` simp lemmas and the `sn_norm` / `sn_mask_norm` tactics are in `RealOpsSimp.lean`; the
+formulas that only C06 is about (`sn_mw_single`, `gh_corrected`) are restated in `SNOps06.lean`.
 -/
 namespace Qats.SN
 open Qats Qats.Gen
-
-@[simp] theorem log10_real (x : ℝ) : TranscOps.log10 x = Real.logb 10 x := rfl
-@[simp] theorem rpow_real (x y : ℝ) : TranscOps.rpow x y = x ^ y := rfl
-@[simp] theorem gamma_real (x : ℝ) : TranscOps.gamma x = Real.Gamma x := rfl
-@[simp] theorem exp_real (x : ℝ) : TranscOps.exp x = Real.exp x := rfl
-@[simp] theorem log_real (x : ℝ) : TranscOps.log x = Real.log x := rfl
-@[simp] theorem sqrt_real (x : ℝ) : TranscOps.sqrt x = Real.sqrt x := rfl
-
-/-- Closes a goal `f a₁ … = g b₁ …` obtained after unfolding a generated formula: literals are normalised, then
-the two sides are compared up to ring normalisation (also under `^`, `logb`, `Gamma`). -/
-macro "sn_norm" : tactic =>
-  `(tactic| (norm_num <;> first | done | ring_nf | (congr 1 <;> ring_nf)))
-
-/-- Same for the comparison masks `decide (a ≤ b) = decide (a' ≤ b')`: equal up to linear-arithmetic
-normalisation of the two inequalities. -/
-macro "sn_mask_norm" : tactic =>
-  `(tactic| (refine decide_eq_decide.2 ⟨fun h => ?_, fun h => ?_⟩ <;> first | exact h | linarith))
 
 theorem loga2_eq (loga1 m1 m2 nswitch : ℝ) :
     sn_loga2 loga1 m1 m2 nswitch = m2 / m1 * loga1 + (1 - m2 / m1) * Real.logb 10 nswitch := by
@@ -68,15 +50,5 @@ theorem tcorr_formula_eq (t te tr : ℝ) : sn_tcorr t te tr = (t / tr) ^ te := b
 
 theorem tcorr_mask_eq (t tr : ℝ) : sn_tcorr_mask t tr = decide (t < tr) := by
   unfold sn_tcorr_mask; sn_mask_norm
-
-theorem mw_single_eq (a1 h m1 q td v0 : ℝ) :
-    sn_mw_single a1 h m1 q td v0 = v0 * td * (q ^ m1 / a1) * Real.Gamma (1 + m1 / h) := by
-  simp only [sn_mw_single, gamma_real, rpow_real]; sn_norm
-
-set_option linter.unusedTactic false in
-set_option linter.unreachableTactic false in
-theorem gh_eq (m r uts : ℝ) : gh_corrected m r uts = r * (uts / (uts - m)) := by
-  simp only [gh_corrected]
-  all_goals sn_norm
 
 end Qats.SN
